@@ -54,7 +54,26 @@ def gen_cases(rng, tier):
             ops = [rng.below(2) for _ in range(n)]
             sc = [(-1 if rng.chance(1, 6) else rng.range(0, 999)) for _ in range(rng.range(0, 40))]
             cases.append("15 | 1 %d %s %s" % (n, " ".join(map(str, ops)), " ".join(map(str, sc))))
-    return cases, {"feed_exhaustive": nfeed, "iter_exhaustive": len(cases) - nfeed - nrand, "random": nrand}
+    # kind 3: a closure callback that is fed a SECOND sequence after its first feed (methods 0 feed_into_mut and 1 extend: the by-reference ones);
+    # the first feed is compared with the model like kind 0, the second one is checked absolutely by the harness
+    nre = 0
+    for method in (0, 1):
+        for stop in range(0, 5):
+            for n in range(0, 5):
+                cases.append("15 | 0 3 %d %d %s" % (stop, method, " ".join(str(10 + i) for i in range(n)))); nre += 1
+    for _ in range(60 if tier == "quick" else 1500):
+        n = rng.range(0, 30)
+        cases.append("15 | 0 3 %d %d %s" % (rng.range(0, n + 2), rng.below(2), " ".join(str(rng.range(0, 899)) for _ in range(n)))); nre += 1
+    return cases, {"reused_callback_cases": nre, "feed_exhaustive": nfeed, "iter_exhaustive": len(cases) - nfeed - nrand, "random": nrand}
+
+
+def model_line(l):
+    # kind 3 (a reused closure callback) is kind 0 for the model: the rows describe the first feed
+    t = l.split()
+    if len(t) > 4 and t[2] == "0" and t[3] == "3":
+        t[3] = "0"
+        return " ".join(t)
+    return l
 
 
 def nontrivial(l):
